@@ -23,6 +23,7 @@ def gen_cases(tier, rng):
     yield from fanout.gen_wait_histories(tier, rng)
     yield from fanout.gen_histories(tier, rng, header_changes=True)
     yield from fanout.gen_rtsp_histories(tier, rng)
+    yield from fanout.gen_rtsp_audio_histories(tier, rng)
 
 
 def split_impl(c, out):
